@@ -526,7 +526,9 @@ def rangeSites (entity : String) (t : TypeDef) (p : Prim) : List Site :=
 def enumeratorValue (isChar : Bool) (p : Prim) (value : String) : Option Int :=
   if isChar then
     match value.toList with
-    | [c] => if c == '\'' || c == '\\' then none else some (c.toNat : Int)
+    | [c] =>
+      -- before `escape_literal`, `'` and `\\` made the enumerator itself ill-formed
+      if (c == '\'' || c == '\\') && !Extracted.Templates.escapesLiterals then none else some (c.toNat : Int)
     | _ => none
   else (toIntegerLiteral p value.toList).value?
 
